@@ -106,14 +106,15 @@ class C18(ProtoSpec):
             self.driver = Driver(binds, names=("1", "2"), mids=("m",), msgs=(("p", "00", "i1"),),
                                  kinds=("bind", "allocate", "claim", "release", "list", "open", "add", "close"),
                                  release_forms=("bare",), close_forms=("bare", "unopened"), moods=("happy",),
-                                 ticks=(E + 2 * P,), max_ticks=1, max_adds=1)
+                                 ticks=(E + 2 * P,), max_ticks=1, max_adds=1, client_versions=(("py", "1.0"),))
             self.depth = 4
         else:
             binds = [[(X, "A")], [(X, "A"), (X, "B")], [(X, "A"), (X, "B"), (X, "C")], [(X, "B"), (X, "C"), ("Y", "A")]]
             self.driver = Driver(binds, names=("1", "2"), mids=("m",), msgs=(("p", "00", "i1"),),
                                  kinds=("bind", "allocate", "claim", "release", "list", "open", "add", "close", "drop"),
                                  release_forms=("bare",), close_forms=("bare", "unopened"), moods=(None, "scary"),
-                                 allocate_ranks=(0, "last"), ticks=(P, E + 2 * P), max_ticks=2, max_adds=1, max_drops=1)
+                                 allocate_ranks=(0, "last"), ticks=(P, E + 2 * P), max_ticks=2, max_adds=1, max_drops=1,
+                                 client_versions=(("py", "1.0"), None))
             self.depth = 8
         self._cfgs = cfgs
         self.cfg = cfgs[0]
@@ -123,13 +124,41 @@ class C18(ProtoSpec):
         self.cfgs = self._cfgs
 
     def seeds(self):
-        A, A2, B = ("cbind", 0, "X", "A"), ("cbind", 1, "X", "A"), ("cbind", 1, "X", "B")
+        cv = ("py", "1.0")
+        A, A2, B = ("cbind", 0, "X", "A", cv), ("cbind", 1, "X", "A", cv), ("cbind", 1, "X", "B", cv)
+        M1 = self._m1()
         return [[],
                 [A, ("allocate", 0, 0), B],
-                [A, ("open", 0, "m"), A2, ("close", 1, "m", "happy")]]
+                [A, ("open", 0, "m"), A2, ("close", 1, "m", "happy")],
+                # a released claim on a nameplate that the other side keeps alive, about to meet the sweeps
+                [A, B, ("claim", 0, "1"), ("claim", 1, "1"), ("open", 1, M1), ("release", 0)]]
+
+    def _m1(self):
+        from ..seams import mailbox_id_from_bytes
+        return mailbox_id_from_bytes(b"\x5a\xa5" + (1).to_bytes(6, "big"))
 
     def nontrivial(self, worlds, mon):
         return bool(mon.np) or bool(mon.mb)
+
+
+class C18Restart(C18):
+    """four file-backed configurations in lockstep through a restart: stored rows exist, a client binds, a sweep runs,
+    then it opens and a peer arrives (what in-memory bookkeeping must not depend on the configuration)"""
+
+    def configure(self, tier):
+        P, E = P_E()
+        X = "X"
+        pick = [(True, False, None), (False, True, 60), (True, True, None), (False, False, 60)]
+        self._cfgs = [dict(storage="file", allow_list=a, usage=u, blur=b) for (a, u, b) in pick]
+        self.cfg = self._cfgs[0]
+        binds = [[(X, "A")], [(X, "A")], [(X, "B")], [(X, "B")]]
+        self.driver = Driver(binds, names=(), mids=("m",), msgs=(("p", "00", "i1"),), kinds=("bind", "open", "add", "drop"),
+                             ticks=(P,), max_ticks=2, max_adds=1, max_drops=1, max_conns=3 if tier == "quick" else 4)
+        self.depth = 4 if tier == "quick" else 6
+
+    def seeds(self):
+        P, E = P_E()
+        return [[("cbind", 0, "X", "A"), ("open", 0, "m"), ("restart",), ("cbind", 1, "X", "A"), ("tick", P)]]
 
 
 RULE = ("lockstep product of 6 (quick: pairwise-covering) or 12 (thorough: all) configurations of {listing} x {usage db} "
@@ -139,11 +168,13 @@ RULE = ("lockstep product of 6 (quick: pairwise-covering) or 12 (thorough: all) 
 
 
 def make_spec(tier, name=None):
-    return C18(tier)
+    return C18Restart(tier) if name == "c18-restart" else C18(tier)
 
 
 def run(pid, tier, seed, args):
     from .base_run import run_specs
     spec = make_spec(tier)
-    return run_specs(pid, tier, seed, args, [("c18", spec, spec.depth, 100 if tier == "quick" else 1500)], rule=RULE,
-                     extra_cov={"configurations": spec.cfgs})
+    spec2 = make_spec(tier, "c18-restart")
+    b = 100 if tier == "quick" else 1500
+    return run_specs(pid, tier, seed, args, [("c18", spec, spec.depth, b), ("c18-restart", spec2, spec2.depth, b / 3)], rule=RULE,
+                     extra_cov={"configurations": spec.cfgs, "restart_configurations": spec2.cfgs})
